@@ -5,6 +5,9 @@
    of is_last_output_of (src/cascade/controller/notify.py) and of the parts of
    fluent.Node.__init__ that name outputs and place input placeholders
    (src/earthkit/workflows/fluent.py, worktree commit 7328005: zero-padded output names).
+   The object a callable returns carries its kind (generator object / generator-like / other
+   iterator / iterable container / __getitem__ sequence / not iterable): run tells a generator
+   from everything else, and nothing else.
    The callable is uninterpreted: `call f args kwargs` says what the Python call does.
    No proofs in this file. *)
 From Coq Require Import List String Bool Arith.
@@ -19,14 +22,36 @@ Variable D : Type.
 Notation pval := (pval D).
 Notation task := (@task F D).
 
-(* what iterating the returned object does: not iterable, or yields ys and then stops
-   (fin = None) or raises (fin = Some exception); gen = it is a generator object
-   (inspect.isgenerator), as opposed to a tuple / list / other iterable *)
-Inductive iterab := NotIter | Iter (gen : bool) (ys : list pval) (fin : option string).
+(* what KIND of object the callable returned, as far as Python code can classify it without
+   consuming it:
+     KGenerator  a generator object (inspect.isgenerator: the result of calling a generator function)
+     KGenLike    an instance of collections.abc.Generator that is not a generator object
+                 (a class with send / throw / close / __next__ / __iter__)
+     KIterator   any other iterator: __iter__ and __next__ (zip, map, enumerate, iter(...),
+                 itertools.*, io.StringIO / io.BytesIO / an open file, csv.reader, a class with __next__)
+     KIterable   __iter__ but no __next__ (tuple, list, dict, str, set, range, numpy array, a class
+                 whose __iter__ is a generator function)
+     KSequence   neither: iter() falls back on __getitem__ (old sequence protocol) *)
+Inductive ikind := KGenerator | KGenLike | KIterator | KIterable | KSequence.
 
-(* singleValue = outputsN == 1 and not inspect.isgenerator(result), negated *)
-Definition unpacks (n : nat) (it : iterab) : bool :=
-  match it with Iter true _ _ => true | _ => Nat.ltb 1 n end.
+(* what iterating the returned object does: not iterable (iter(result) raises TypeError), or
+   yields ys and then stops (fin = None) or raises (fin = Some exception) *)
+Inductive iterab := NotIter | Iter (kd : ikind) (ys : list pval) (fin : option string).
+
+(* inspect.isgenerator(result) *)
+Definition is_generator (k : ikind) : bool := match k with KGenerator => true | _ => false end.
+
+(* `streams` = the test by which run decides that the callable streams its outputs one by one
+   although a single output is declared.  The code: inspect.isgenerator.  It is a parameter of
+   the model so that other tests (every Iterator, every Iterable ...) are expressible and their
+   consequences computable (Props/C10.v, C10_other_stream_tests_break_single_values).
+   singleValue = outputsN == 1 and not streams(result), negated *)
+Definition unpacks_with (streams : ikind -> bool) (n : nat) (it : iterab) : bool :=
+  match it with
+  | Iter k _ _ => if streams k then true else Nat.ltb 1 n
+  | NotIter => Nat.ltb 1 n
+  end.
+Definition unpacks : nat -> iterab -> bool := unpacks_with is_generator.
 (* the call func(args, kwargs): raises, or returns the object v *)
 Inductive cres := CRaise (e : string) | CRet (v : pval) (it : iterab).
 
@@ -100,8 +125,8 @@ Fixpoint store_loop (tid : string) (publish : list dsid) (outs : list (string * 
   end.
 
 (* run(taskId, executionContext, memory): the handle calls made, and how it ended *)
-Definition run_task (tid : string) (t : task) (src : list (inkey * dsid)) (publish : list dsid)
-           (m : memory) : list handled * res unit :=
+Definition run_task_with (streams : ikind -> bool) (tid : string) (t : task) (src : list (inkey * dsid))
+           (publish : list dsid) (m : memory) : list handled * res unit :=
   match bound_args t src m with
   | Err e => ([], Err e)
   | Ok (args, kwargs) =>
@@ -111,7 +136,7 @@ Definition run_task (tid : string) (t : task) (src : list (inkey * dsid)) (publi
           match call (t_func t) args kwargs with
           | CRaise e => ([], Err e)
           | CRet v it =>
-              if unpacks (List.length ((k, s) :: r)) it then
+              if unpacks_with streams (List.length ((k, s) :: r)) it then
                 match it with
                 | NotIter => ([], Err "TypeError")  (* iter(result) *)
                 | Iter _ ys fin => store_loop tid publish ((k, s) :: r) ys fin []
@@ -120,6 +145,10 @@ Definition run_task (tid : string) (t : task) (src : list (inkey * dsid)) (publi
           end
       end
   end.
+
+(* the code as it is: only a generator object is iterated for a single declared output *)
+Definition run_task : string -> task -> list (inkey * dsid) -> list dsid -> memory -> list handled * res unit :=
+  run_task_with is_generator.
 
 (* self.local[outputId] = outputValue, in the order of the handle calls *)
 Fixpoint mset (d : dsid) (v : pval) (m : memory) : memory :=
@@ -143,10 +172,10 @@ Definition is_last_output_of (d : dsid) (tasks : list (string * task)) : res boo
 
 End Runner.
 
-Arguments NotIter {D}. Arguments unpacks {D}. Arguments Iter {D}. Arguments CRaise {D}. Arguments CRet {D}.
+Arguments NotIter {D}. Arguments unpacks_with {D}. Arguments unpacks {D}. Arguments Iter {D}. Arguments CRaise {D}. Arguments CRet {D}.
 Arguments ensure {D}. Arguments set_nth {D}. Arguments put {D}. Arguments static_args {F D}.
 Arguments provide {D}. Arguments bind_inputs {D}. Arguments bound_args {F D}.
-Arguments store_loop {D}. Arguments run_task {F D}. Arguments mset {D}. Arguments memory_after {D}.
+Arguments store_loop {D}. Arguments run_task_with {F D}. Arguments run_task {F D}. Arguments mset {D}. Arguments memory_after {D}.
 Arguments is_last_output_of {F D}.
 
 (* ------------------------------------------------------------------ fluent.Node.__init__ *)
